@@ -41,6 +41,10 @@ func (*Sorter).less
 
 immutable DataProcessor: stream
 
+func NewDataProcessor
+  props C05 C19
+  ensures the-processor-serves-the-stream-it-was-built-for: fresh(result) && result.stream == stream
+
 // the consumer loop: a buffer swap (expansion) or Stop replaces s.dataChan, so the channel must be read again, under the
 // read lock, in every iteration before a row is taken from it
 func (*DataProcessor).Process
